@@ -16,7 +16,11 @@ EXTENDS Naturals, Integers, Sequences, FiniteSets, TLC, Json
 CONSTANTS
     MaxDepth,
     Args,        \* explicit step arguments; -1 = none given
-    MaxK, Caps   \* exponential decay: steps 0..MaxK, caps as <<num, den>>
+    MaxK, Caps,  \* exponential decay: steps 0..MaxK, caps as <<num, den>>
+    InitMode     \* "frac": fractional initial values of the float parameters;
+                 \* "int": integral ones (the harness then passes python ints
+                 \* for the float parameters and python floats for the two
+                 \* intervals: the arithmetic must not depend on the type)
 \* END-CONSTANTS
 
 Params == <<"factor_update_steps", "inv_update_steps", "damping",
@@ -35,6 +39,14 @@ Factor(p, s) ==
 
 \* initial values (dyadic): ints for the intervals
 Init0(p) ==
+    IF InitMode = "int" THEN
+    CASE p = "factor_update_steps" -> <<2, 1>>
+      [] p = "inv_update_steps"    -> <<3, 1>>
+      [] p = "damping"             -> <<1, 1>>
+      [] p = "factor_decay"        -> <<1, 1>>
+      [] p = "kl_clip"             -> <<2, 1>>
+      [] p = "lr"                  -> <<1, 1>>
+    ELSE
     CASE p = "factor_update_steps" -> <<2, 1>>
       [] p = "inv_update_steps"    -> <<3, 1>>
       [] p = "damping"             -> <<1, 16>>
